@@ -270,7 +270,7 @@ def r_order(c):
     if len(sites) < 7:
         raise AnalysisError(f"only {len(sites)} unordered iteration sites in code "
                             "generation modules (floor 7)")
-    rv = Reviewed()
+    rv = Reviewed(m)
     for s in sites:
         where = m.loc(m.module_of(s.node), s.node)
         inst = s.stmt_text[:120]
@@ -285,7 +285,7 @@ def r_order(c):
                         "were supplied", facts={"key": s.key})
     # outputs are computed in a keyed topological order, visited in sorted order
     fd = m.func("pytato.codegen.preprocess")
-    calls = [x for x in ast.walk(fd) if isinstance(x, ast.Call)
+    calls = [x for x in m.walk_scope(fd) if isinstance(x, ast.Call)
              and ast.unparse(x.func).endswith("compute_topological_order")]
     c.check(len(calls) == 1 and any(k.arg == "key" for k in calls[0].keywords),
             "R01-ORDER", "codegen.preprocess", "keyed-topological-order-of-outputs",
